@@ -3,6 +3,7 @@
 package probe
 
 import (
+	"crypto/cipher"
 	"crypto/rand"
 	"errors"
 	"fmt"
@@ -326,4 +327,23 @@ func Carve(parts ...[]byte) (views [][]byte, unchanged func() error) {
 		}
 		return nil
 	}
+}
+
+// SpyBlock wraps a cipher.Block (the AES block inside the library's own cipher object) and logs every block operation as
+// an Encrypt / Decrypt event of the named cipher object: code that asks "is this the library's own cipher type?" before
+// touching the cipher is observed too, which a wrapper around the IKECrypto interface cannot do.
+type SpyBlock struct {
+	Name  string
+	Inner cipher.Block
+	Log   *Log
+}
+
+func (s *SpyBlock) BlockSize() int { return s.Inner.BlockSize() }
+func (s *SpyBlock) Encrypt(dst, src []byte) {
+	s.Log.add(s.Name, "Encrypt", nil)
+	s.Inner.Encrypt(dst, src)
+}
+func (s *SpyBlock) Decrypt(dst, src []byte) {
+	s.Log.add(s.Name, "Decrypt", nil)
+	s.Inner.Decrypt(dst, src)
 }
